@@ -38,6 +38,7 @@ REDUCTIONS = {'min', 'max', 'sum', 'mean', 'any', 'all', 'nanmin', 'nanmax', 'na
               'median', 'std', 'var'}
 SHAPE_VIEWS = {'flatten', 'transpose', 'broadcast', 'rename_dims', 'fold', 'squeeze', 'rename'}
 DIM_ATTRS = {'dims', 'dim', 'sizes', 'shape', 'ndim', 'size'}
+_MappingProxy = type(type.__dict__)  # types.MappingProxyType
 EXC_NAMES = {'DimensionError', 'UnitError', 'DTypeError', 'CoordError', 'VariancesError',
              'BinEdgeError', 'VariableError', 'DatasetError'}
 
@@ -750,12 +751,15 @@ class Model:
         mod, _, name = path.rpartition('.')
         if mod == 'builtins':
             return self._builtin(interp, name, args, kwargs, node)
+        if path == 'types.MappingProxyType' and len(args) == 1 and isinstance(args[0], dict):
+            import types
+            return types.MappingProxyType(args[0])  # a read-only view of that very dict
         if mod in ('scipp', 'scipp.spatial', 'scipp.core', 'scipp.constants'):
             fn = getattr(self, 'sc_' + name, None)
             if fn is not None:
                 return fn(interp, args, kwargs, node)
             if name in EXC_NAMES:
-                return Opaque(f'exception {name}')
+                return ExcValue(name, tuple(args))  # an exception object: may be kept in a variable and raised later
             if name in ('sqrt', 'reciprocal') and args and isinstance(args[0], Unit):
                 return args[0] ** (F(1, 2) if name == 'sqrt' else -1)
             if name in _ELEMENTWISE:
@@ -1375,7 +1379,7 @@ class Model:
                 return Opaque(f'{name} of unhashable')
             return list(r) if name in ('enumerate', 'reversed') else r
         if name == 'dict':
-            if args and isinstance(args[0], dict):
+            if args and isinstance(args[0], dict | _MappingProxy):
                 return {**args[0], **kwargs}
             if args:
                 return dict(interp.iterate(args[0], node), **kwargs)
